@@ -1,6 +1,6 @@
 """which stages decide which property, and what each claim says"""
 
-FIX_COMMITS = ["88f9d1c", "d6a9f9a"]
+FIX_COMMITS = ["88f9d1c", "d6a9f9a", "829a1d9"]
 
 TB_VERUS = [
     "Verus 0.2026.09.13 + Z3 (verifier, encoding of Rust semantics, vstd specs of Vec/String/str/slice iterators/Option/arrays)",
@@ -14,7 +14,7 @@ TB_CODEC_ENC = [
 ]
 
 from vx.kstages import k1_replace_inv, k2_eq_hash, k4_with_indices, k5_codec_cross  # noqa: E402
-from vx.witness import codec_witness, mixed_witness, replace_witness  # noqa: E402
+from vx.witness import codec_witness, eqhash_witness, mixed_witness, replace_witness  # noqa: E402
 
 PLAN = {
     "C12": {
@@ -42,12 +42,14 @@ PLAN = {
         "verus_units": ["codec_dec", "codec_enc", "replace_splice"],
         "technique": "contract-based deductive verification (Verus): overflow/shift/index/termination obligations of the real decoder and encoders under a representation invariant",
         "claim": "Partial, unbounded proof: MappingsDecoder::next never overflows, shifts out of range, indexes out of bounds or diverges on any byte string "
-                 "< 4 GiB for any number of calls (struct invariant preserved); encode_vlq and both encoders are panic-free under the C12 domain. "
+                 "< 4 GiB for any number of calls (struct invariant preserved); encode_vlq is panic-free for every pair of u32 and both encoders for every sequence of "
+                 "mappings with non-decreasing generated lines and ARBITRARY u32 field values (no value-domain precondition in this view; found and fixed one overflow this way); "
+                 "ReplaceSource::source and ::rope slice only in range on char boundaries. "
                  "JSON parsers, chunk streaming and Rope are not decided.",
         "note": "Partial: only the decoder/encoder half of the property. Trusted: Verus/Z3/vstd, extraction rules, assume_specifications listed in evidence.",
         "trusted_base": TB_VERUS + TB_CODEC_ENC,
-        "assumptions": ["mappings string shorter than u32::MAX - 1 bytes", "encoder fields < 2^30, sorted input"],
-        "not_covered": ["SourceMap::from_json/from_slice/from_reader (simd-json)", "every stream_chunks implementation", "Rope methods", "ReplaceSource::source until unit replace_splice lands"],
+        "assumptions": ["mappings string shorter than u32::MAX - 1 bytes", "encoder input sorted by generated line (any u32 values)", "ReplaceSource: positions on char boundaries or beyond the end, inner text < 4 GiB; Rope methods per their assumed contracts"],
+        "not_covered": ["SourceMap::from_json/from_slice/from_reader (simd-json)", "every stream_chunks implementation", "Rope methods", "ReplaceSource::stream_chunks / map"],
         "design_ref": "DESIGN.md §4/C17",
     },
     "C11": {
@@ -105,6 +107,7 @@ PLAN = {
     },
     "C14": {
         "level": "model_checking",
+        "witness": eqhash_witness,
         "verus_units": [],
         "extra_stages": [k2_eq_hash],
         "kani": True,
